@@ -12,12 +12,12 @@ CHECKS = {
     note="bounded configurations; CPython-level atomicity of list/lock operations; simulated Lock/list/stream wrappers stand in for the OS scheduler"),
  "C13": dict(
     spec="RpycServe", design="5/C13",
-    technique="TLA+ spec RpycServe (serve/wait/dispatch, one action per shared operation) model-checked by TLC; state-graph transition cover replayed into real client threads + BgServingThread under a deterministic scheduler; random and preemption-bounded exhaustive implementation schedules trace-validated by TLC and judged by per-request oracles; every source line of serve/_dispatch/_seq_request_callback/_async_request/AsyncResult.wait/__call__/value as the one forced preemption point, including requests the peer answers with an exception",
+    technique="TLA+ spec RpycServe (serve/wait/dispatch, one action per shared operation) model-checked by TLC; state-graph transition cover replayed into real client threads + BgServingThread under a deterministic scheduler; random and preemption-bounded exhaustive implementation schedules trace-validated by TLC and judged by per-request oracles; every source line of serve/_dispatch/_seq_request_callback/_async_request/AsyncResult.wait/__call__/value as the one forced preemption point, including requests the peer answers with an exception; TLA+ spec RpycServeNested (replies carrying references: INSPECT round trip inside the dispatch, serve() re-entered on the dispatching thread, activation stacks) model-checked and bound by judged and trace-validated implementation schedules",
     text="TLC exhausts 2-3 client threads (+ background server) against a peer answering in any order for receive-lock exclusion, exactly-once dispatch, reply/request matching, no lost wake-up, no hang, termination; the real serve()/AsyncResult code is driven along every edge of the state graph with state comparison, and implementation schedules are checked against the spec by TLC and by direct oracles (result identity, dispatch counts, sequence numbers, deadlock / lost wake-up detection in virtual time)",
     note="bounded configurations; sending is one step (C12); preemption at shared-object operations (source lines in the thorough tier); simulated Lock/Condition/clock/transport"),
  "C14": dict(
     spec="RpycServe", design="5/C14",
-    technique="TLA+ spec RpycServe with both variants of serve() (constant Handoff): TLC proves NoStall for the repaired hand-off (replies in transit counted under the receive lock, readiness re-checked under both locks, notification after dispatch) and keeps producing the NoStall counterexample for the pinned one; the driver takes the variant from the working tree, replays the state graph and the pinned counterexample on the real code in virtual time, and explores implementation schedules (random, every source line as forced preemption point, background thread, exception replies) with a stall oracle and TLC trace validation",
+    technique="TLA+ spec RpycServe with both variants of serve() (constant Handoff): TLC proves NoStall for the repaired hand-off (replies in transit counted under the receive lock, readiness re-checked under both locks, notification after dispatch) and keeps producing the NoStall counterexample for the pinned one; the driver takes the variant from the working tree, replays the state graph and the pinned counterexample on the real code in virtual time, and explores implementation schedules (random, every source line as forced preemption point, background thread, exception replies) with a stall oracle and TLC trace validation; RpycServeNested: the same with replies that carry references (nested INSPECT round trips inside the dispatch)",
     text="TLC exhausts 1-3 client threads (+ background server) of the serve() in the working tree: no reachable state has a waiter blocked in poll or in the condition wait after its result was published with nobody left to wake it; the real code is driven along the state graph and along thousands of schedules under virtual time, each waiter's return time compared with the time its reply was dispatched, and every trace validated by TLC against the same specification; on a tree with the pinned serve() the counterexample schedule is replayed and the 30 s stall reported",
     note="bounded configurations; virtual time: timeouts only run out at quiescence; the hand-off stall of the pinned tree was repaired (fixed: entry in known_findings.json)"),
  "C10": dict(
